@@ -50,7 +50,7 @@ def _zone(z):
     sign = -1 if z[0] == "-" else 1
     hh, _, mm = z[1:].partition(":")
     h, m = int(hh), int(mm or 0)
-    if h > 12 or m > 59:
+    if h > 23 or m > 59:
         return "bad", None
     return "offset", dt.timezone(sign * dt.timedelta(hours=h, minutes=m))
 
